@@ -993,6 +993,8 @@ rv = .false.
                     modules, imports,
                     ast.typemap.f_c_module or ast.typemap.f_module
                 )
+                # The imported capsule type must be defined in this module.
+                fileinfo.f_helper["capsule_data_helper"] = True
                 continue
             elif buf_arg == "arg_decl":
                 # Use explicit declaration from CStmt.
